@@ -79,7 +79,8 @@ OrderIndependent == \A e \in EnumOrders(Globbed(case.files, "t")) : Pipeline(e) 
 -----------------------------------------------------------------------------
 (* Part 2: directory arguments *)
 \* resolved directories of the abstract file system (path components)
-Dirs == { <<"w", "a">>, <<"w", "b">>, <<"w", "a", "n">>, <<"w", "Ab">>, <<"w", "aB">>, <<"v", "a">>, <<"w", "B">> }
+\* (the last: a sibling whose path, compared as a STRING, lies between "w/a" and "w/a/n" - a dash sorts before the slash)
+Dirs == { <<"w", "a">>, <<"w", "b">>, <<"w", "a", "n">>, <<"w", "Ab">>, <<"w", "aB">>, <<"v", "a">>, <<"w", "B">>, <<"w", "a-x", "c">> }
 LowerName(p) == LET n == p[Len(p)] IN CASE n = "Ab" -> "ab" [] n = "aB" -> "ab" [] n = "B" -> "b" [] OTHER -> n
 IsInside(q, p) == Len(q) > Len(p) /\ SubSeq(q, 1, Len(p)) = p
 \* an argument is a spelling of a resolved directory: absolute, relative to the working directory, or through a symlink
